@@ -37,7 +37,7 @@ impl Property for C11 {
         "exploration"
     }
     fn rule(&self) -> String {
-        "case = (suite, n, t, identifier style, key source dealer/DKG/refreshed, helper set H of every size t..n-1 (prefix, suffix, \
+        "case = (suite, n, t, identifier style, key source dealer/DKG/refreshed, helper set H of every size t..n-1 - for a new identifier t..n, n >= 2, t <= n - (prefix, suffix, \
          scattered), repaired identifier = EACH existing non-helper or a brand-new identifier of any style, seeds); the three repair parts \
          are run and compared with the harness's own Lagrange interpolation at the repaired identifier; the repaired participant then \
          signs with t-1 others; the refused inputs (|H| < t, duplicate helper, caller not in the helper list) are tried. One evaluation \
@@ -75,10 +75,11 @@ impl Property for C11 {
             (Tier::Thorough, true, false) => 10,
             (Tier::Thorough, true, true) => 5,
         };
-        (3u16..=nmax.max(3), any::<u16>(), idspec_strategy(None), subset_strategy(None), idspec_strategy(None), msg_short_strategy(), any::<u64>())
+        (2u16..=nmax.max(3), any::<u16>(), idspec_strategy(None), subset_strategy(None), idspec_strategy(None), msg_short_strategy(), any::<u64>())
             .prop_map(move |(n, ti, ids, helpers, new_id_style, msg, seed)| {
-                // t <= n-1 so that a helper set of t..n-1 members exists next to the repaired participant
-                let t = 2 + idx(ti, (n - 2) as usize) as u16;
+                // existing participant: t <= n-1 so that a helper set of t..n-1 members exists next to the repaired one;
+                // new identifier: every (n, t) with 2 <= t <= n, helper sets up to the whole group
+                let (n, t) = if new_id { (n, 2 + idx(ti, (n - 1) as usize) as u16) } else { (n.max(3), 2 + idx(ti, (n.max(3) - 2) as usize) as u16) };
                 Case { shape: Shape { n, t }, ids, source, helpers, new_id, new_id_style, msg, seed }
             })
             .boxed()
@@ -88,10 +89,13 @@ impl Property for C11 {
         vec![
             ("|H|>t".into(), m),
             ("|H|=t".into(), m),
+            ("|H|=n".into(), m),
+            ("t=n".into(), tier.pick(10, 100)),
             ("repair:new-identifier".into(), m),
             ("repair:existing".into(), m),
             ("src:dkg".into(), m),
             ("src:refreshed".into(), m),
+            ("chain:repaired-helps-repair".into(), m),
             ("refused:too-few".into(), m),
             ("refused:duplicate".into(), m),
             ("refused:caller-missing".into(), m),
@@ -103,8 +107,13 @@ impl Property for C11 {
 }
 
 fn check<C: Suite>(case: &Case, ctx: &mut Ctx) -> CheckResult {
-    let nn = case.shape.n.max(3);
-    let shape = Shape { n: nn, t: case.shape.t.clamp(2, nn - 1) };
+    let shape = if case.new_id {
+        let nn = case.shape.n.max(2);
+        Shape { n: nn, t: case.shape.t.clamp(2, nn) }
+    } else {
+        let nn = case.shape.n.max(3);
+        Shape { n: nn, t: case.shape.t.clamp(2, nn - 1) }
+    };
     let (n, t) = (shape.n as usize, shape.t as usize);
     let dkg = case.source & 1 == 1;
     let refreshed = case.source & 2 == 2;
@@ -123,9 +132,17 @@ fn check<C: Suite>(case: &Case, ctx: &mut Ctx) -> CheckResult {
     };
     ctx.label(&format!("src:{src_name}"));
     let vk = *pubkeys.verifying_key();
-    // helper set: t..n-1 members
-    let hs = make_subset(n, t, SubsetSpec { extra: case.helpers.extra, ..case.helpers });
-    let hs: Vec<usize> = if hs.len() > n - 1 { hs[..n - 1].to_vec() } else { hs };
+    // helper set: t..n-1 members next to an existing repaired participant; for a NEW identifier up to all n
+    // (one case in four: exactly the whole group helps)
+    let hmax = if case.new_id { n } else { n - 1 };
+    let hs = if case.new_id && case.seed & 3 == 0 { (0..n).collect() } else { make_subset(n, t, SubsetSpec { extra: case.helpers.extra, ..case.helpers }) };
+    let hs: Vec<usize> = if hs.len() > hmax { hs[..hmax].to_vec() } else { hs };
+    if hs.len() == n {
+        ctx.label("|H|=n");
+    }
+    if t == n {
+        ctx.label("t=n");
+    }
     let helpers: Vec<Id<C>> = hs.iter().map(|i| keys.ids[*i]).collect();
     let non_helpers: Vec<Id<C>> = keys.ids.iter().filter(|i| !helpers.contains(i)).copied().collect();
     ctx.label(if helpers.len() > t { "|H|>t" } else { "|H|=t" });
@@ -213,6 +230,47 @@ fn check<C: Suite>(case: &Case, ctx: &mut Ctx) -> CheckResult {
                 ensure!(ctx, vk.verify(&msg, &sig).is_ok() && iv != Some(false), "C11/repaired-participant-cannot-sign", "signature with the repaired participant does not verify ({desc})");
             }
             Err(e) => ctx.fail("C11/repaired-participant-cannot-sign", format!("aggregate failed with the repaired participant: {e:?} ({desc})"))?,
+        }
+
+        // ---- chain: the repaired participant (holding only the repaired package) helps to repair ANOTHER participant
+        if let Some(second) = keys.ids.iter().find(|i| *i != target).copied() {
+            let mut h2: Vec<Id<C>> = vec![*target];
+            for i in keys.ids.iter().rev() {
+                if h2.len() < t && *i != second && *i != *target {
+                    h2.push(*i);
+                }
+            }
+            if h2.len() == t {
+                ctx.eval(&format!("{n},{t},chain,{src_name},{existing}"), true);
+                ctx.label("chain:repaired-helps-repair");
+                let mut d2: BTreeMap<Id<C>, BTreeMap<Id<C>, Delta<C>>> = BTreeMap::new();
+                let mut ok = true;
+                for h in &h2 {
+                    match repair_share_part1::<C, _>(&h2, &kk[h], &mut Tape::random(rng.next()), second) {
+                        Ok(d) => {
+                            d2.insert(*h, d);
+                        }
+                        Err(e) => {
+                            ok = false;
+                            ctx.fail("C11/honest-repair-refused", format!("second repair (the repaired participant helps): part1 failed: {e:?} ({desc})"))?;
+                        }
+                    }
+                }
+                if ok {
+                    let mut sig2: Vec<Sigma<C>> = Vec::new();
+                    for j in &h2 {
+                        let recv: Vec<Delta<C>> = h2.iter().filter_map(|i| d2[i].get(j).copied()).collect();
+                        sig2.push(repair_share_part2::<C>(&recv));
+                    }
+                    match repair_share_part3::<C>(&sig2, second, &pk2) {
+                        Ok(kp2) => {
+                            ensure!(ctx, kp2.signing_share().to_scalar() == kps[&second].signing_share().to_scalar(), "C11/repaired-share-differs-from-lost", "second repair, helped by the previously repaired participant, does not give back the lost share ({desc})");
+                            ensure!(ctx, kp2.verifying_share().to_element() == kps[&second].verifying_share().to_element() && *kp2.verifying_key() == vk && *kp2.min_signers() == shape.t, "C11/verifying-share", "second repair: verifying share / group key / threshold differ ({desc})");
+                        }
+                        Err(e) => ctx.fail("C11/honest-repair-refused", format!("second repair (the repaired participant helps): part3 failed: {e:?} ({desc})"))?,
+                    }
+                }
+            }
         }
     }
 
